@@ -18,7 +18,7 @@ def HA(fn, what, known=None, unwind=33, mem=2, timeout=1200, tiers=('quick', 'th
     A64P = '_ZN6asmjit5v1_213a6410EmitHelper11emit_prologERKNS0_9FuncFrameE'; A64E = '_ZN6asmjit5v1_213a6410EmitHelper11emit_epilogERKNS0_9FuncFrameE'; PEI = '_ZN6asmjit5v1_213a6416PrologEpilogInfo4initERKNS0_9FuncFrameE'
     # library loops: pair loops (AAPCS64: at most 7 GP and 4 vector pairs; light-call: 14 and 14), mask iteration in PrologEpilogInfo::init (13 / 28 registers)
     pairs, regs = (3, 4) if ('C07C' in fn or 'C07D' in fn) else (4, 6) if 'small' in fn else (8, 14)
-    if 'light' in fn or 'C07E' in fn: pairs, regs = (4, 6)
+    if 'light' in fn or 'C07E' in fn: pairs, regs = (7, 11)   # light-call: used argument registers x4-x7 / v4-v7 are callee-saved too
     us = ','.join('%s.%d:%d' % (f, i, pairs) for f in (A64P, A64E) for i in range(4)) + ',%s.0:%d,%s.1:%d' % (PEI, regs, PEI, regs)
     return Harness('prolog_a64', fn, unwind=unwind, unwindset=us, bounds=what + '; ' + B_PRO_A64, known=known, mem_gb=mem, timeout=timeout, tiers=tiers)
 B_FRAME = ('every convention id valid for the arch (real CallConv::init); dirty masks of all 4 groups: all 2^32 values each; local and call stack size 0..65536; '
@@ -49,8 +49,8 @@ HARNESSES = [
     HA('h_prolog_a64_kf_C07D', 'AAPCS64, region of known finding C07D (preserved FP); dirty callee-saved registers within x19, x29, x30', known='C07D'),
     HA('h_prolog_a64_aapcs', 'AAPCS64 (Linux)', mem=4, timeout=3000, tiers=('thorough',)),
     HA('h_prolog_a64_apple', 'Apple arm64', mem=4, timeout=3000, tiers=('thorough',)),
-    HA('h_prolog_a64_light_small', 'AArch64 light-call 2 (16-byte vector slots), slice: dirty registers within x19-x21, x29, x30, d8-d10', mem=3, timeout=2400, tiers=('thorough',)),
-    HA('h_prolog_a64_kf_C07E', 'AArch64 light-call 2, same slice, region of known finding C07E (odd number of saved vector registers)', known='C07E', mem=3, timeout=2400, tiers=('thorough',)),
+    HA('h_prolog_a64_light_small', 'AArch64 light-call 2 (16-byte vector slots), slice: dirty registers within x19-x21, x29, x30, d8-d10 (plus used argument registers)', mem=6, timeout=3000, tiers=('thorough',)),
+    HA('h_prolog_a64_kf_C07E', 'AArch64 light-call 2, same slice, region of known finding C07E (odd number of saved vector registers)', known='C07E', mem=6, timeout=3000, tiers=('thorough',)),
 ]
 EXPLANATION = 'bounded symbolic execution (CBMC) of the real FuncFrame::init/finalize and of the real x86/a64 emit_prolog/emit_epilog driving a model machine defined in the harness'
 OUTSIDE = ['H2 AArch64 light-call with all 2^32 dirty masks (h_prolog_a64_light / full C07E companion: no verdict within 3000 s - replaced by the slice harnesses)', 'BaseRAPass::update_stack_frame hand-over (needs a Compiler run)', 'local/call stack sizes above 64 KiB',
